@@ -342,7 +342,9 @@ def validEvents (ext : Bool) (es : List Ev) : Bool :=
 def runAgInstrs (et : String) (s : State) (a : Agent) : List (Instr ExtState) → State × Agent × Bool
   | [] => (s, a, false)
   | .set x :: is => runAgInstrs et s { a with st := x } is
-  | .flow f _ :: is => runAgInstrs et (flowCall s f).1 a is
+  | .flow f _ :: is =>
+    -- ghost: the agent's arrival at the init flow's agents-ready gate was counted
+    runAgInstrs et (flowCall s f).1 (if f == .initAgentReady && (flowCall s f).2 then { a with asked := true } else a) is
   | .suspend _ _ :: _ => (s, a, true)
   | .subscribe es :: is => runAgInstrs et s { a with subs := es.foldl (fun acc e => insertEv e acc) a.subs } is
   | .setErrType :: is => runAgInstrs et s { a with errSet := true, errType := et } is
